@@ -420,6 +420,12 @@ func (c *Ctx) origins(v ssa.Value, depth int, os *originSet) {
 		os.leaves = append(os.leaves, v)
 		return
 	case *ssa.Call:
+		switch calleeName(&x.Call) {
+		case "bytes.Clone", "slices.Clone[[]byte]", "slices.Clone[[]uint64]", "internal/util.CloneByteSlices":
+			// value-preserving copies
+			c.origins(x.Call.Args[0], depth, os)
+			return
+		}
 		if c.inlineReturns(x, 0, depth, os) {
 			return
 		}
